@@ -157,6 +157,19 @@ int run_c15(const Args& a, Recorder& rec) {
         rec.counters["stub_hits"] += hits; rec.counters["stub_misses"] += misses; rec.sample(kase + ": " + std::to_string(fills) + " stored, " + std::to_string(hits) + " hits, " + std::to_string(misses) + " misses");
         if (N > 0 && hits == 0) rec.violation("C15:storage-never-hit", "the precomputed window is never used", kase);
     }
+    // (a') refill histories: the same container filled again with another window size (grow, shrink, to zero and back): after every
+    //      fill the whole box must read like the source -- stale slices of an earlier, larger window must not be served
+    { int NR = a.thorough() ? 5 : 4, depth = 3; long total = 1; for (int d = 0; d < depth; ++d) total *= (NR + 1);
+      for (long code = 0; code < total; ++code) {
+        if ((idx++ % a.nshards) != a.shard) continue;
+        int Ns[3]; long cdx = code; for (int d = 0; d < depth; ++d) { Ns[d] = cdx % (NR + 1); cdx /= (NR + 1); }
+        std::string kase = "stub refill history N=" + std::to_string(Ns[0]) + "," + std::to_string(Ns[1]) + "," + std::to_string(Ns[2]); if (!a.want(kase)) continue;
+        marker("C15 " + kase); rec.states++; rec.transitions += depth; if (Ns[0] != Ns[1] || Ns[1] != Ns[2]) rec.nontrivial++;
+        Stub s; MatsubaraContainer4<Stub> mc; bool bad = false;
+        for (int d = 0; d < depth && !bad; ++d) { mc.fill(&s, Ns[d]); int B = NR + 2;
+            for (long n1 = -B - 1; n1 <= B && !bad; ++n1) for (long n2 = -B - 1; n2 <= B && !bad; ++n2) for (long n3 = -B - 1; n3 <= B; ++n3) { rec.evaluations++;
+                if (mc(n1, n2, n3) != s.value(n1, n2, n3)) { rec.violation("C15:storage-refill", "after filling the same container again with another window size a lookup returns something else than the source value", kase + " after fill #" + std::to_string(d + 1) + " n=(" + std::to_string(n1) + "," + std::to_string(n2) + "," + std::to_string(n3) + ")"); bad = true; break; } } }
+      } }
     // (b) the real Vertex4
     std::vector<PlanItem> plan; { PlanItem it; it.shape = "S1"; it.depth = a.thorough() ? 2 : 1; plan.push_back(it); PlanItem i2; i2.shape = "S2"; i2.depth = a.thorough() ? 2 : 1; plan.push_back(i2); if (a.thorough()) { PlanItem i3; i3.shape = "S4"; i3.depth = 1; plan.push_back(i3); } }
     for_each_state(a, rec, plan, [&](Ctx& c) {
@@ -166,6 +179,9 @@ int run_c15(const Args& a, Recorder& rec) {
         for (auto& t : tuples_for(M, true)) {
             int i = t[0], j = t[1], k = t[2], l = t[3];
             TwoParticleGF X(*P.S, *P.H, P.Ops->getAnnihilationOperator(i), P.Ops->getAnnihilationOperator(j), P.Ops->getCreationOperator(k), P.Ops->getCreationOperator(l), *P.rho); X.prepare(); X.compute();
+            { Vertex4 V(X, (*P.G)(i, k), (*P.G)(j, l), (*P.G)(i, l), (*P.G)(j, k)); int seq[4] = { 2, 1, 0, 2 };
+              for (int q = 0; q < 4; ++q) { V.compute(seq[q]); std::string kase = c.repr + " | Gamma(" + std::to_string(i) + std::to_string(j) + std::to_string(k) + std::to_string(l) + ") recomputed N=2,1,0,2 step " + std::to_string(q + 1); bool bad = false;
+                for (long n1 = -4; n1 <= 3 && !bad; ++n1) for (long n2 = -4; n2 <= 3 && !bad; ++n2) for (long n3 = -4; n3 <= 3; ++n3) { rec.evaluations++; if (V(n1, n2, n3) != V.value(n1, n2, n3)) { rec.violation("C15:vertex-storage-recompute", "after Vertex4::compute is called again with another window Vertex4::operator() differs from Vertex4::value()", kase + " n=(" + std::to_string(n1) + "," + std::to_string(n2) + "," + std::to_string(n3) + ")"); bad = true; break; } } } }
             for (int N = 0; N <= 2; ++N) {
                 Vertex4 V(X, (*P.G)(i, k), (*P.G)(j, l), (*P.G)(i, l), (*P.G)(j, k)); V.compute(N);
                 std::string kase = c.repr + " | Gamma(" + std::to_string(i) + std::to_string(j) + std::to_string(k) + std::to_string(l) + ") N=" + std::to_string(N);
